@@ -63,11 +63,11 @@ def generate(rng, tier, index):
         elif k < 0.90:
             ops.append(["info", rng.choice(["none", "strict", "fix"]), rng.randrange(0, 4)])
         elif k < 0.96:
-            ops.append(["read", rng.choice([None, 1000]), rng.choice([None, 1001]), rng.random() < 0.5])
+            ops.append(["read", rng.choice([None, 1000, "lo"]), rng.choice([None, 1001, "lo"]), rng.random() < 0.5])
         else:
             ops.append(["hyp", u, rng.randrange(1 << 16)])
     ops.append(rng.choice([["validate"], ["fix", rng.randrange(0, 4)], ["info", "strict", 0]]))
-    ops.append(["read", rng.choice([None, 1000]), rng.choice([None, 1001]), rng.random() < 0.5])
+    ops.append(["read", rng.choice([None, 1000, "lo"]), rng.choice([None, 1001, "lo"]), rng.random() < 0.5])
     sc["ops"] = ops
     return sc
 
@@ -615,6 +615,14 @@ def execute(sc):
                     sos, eos, tokens_only = op[1], op[2], op[3]
                     if not model.has("ref"):
                         continue
+                    # "lo": an id inside the range of frame indices (so it can equal a boundary) that no
+                    # stored token uses; only when tokens are the large utterance-coded ones
+                    used = {int(t) for fn_, r_ in model.parts["ref"].items() if torch.is_tensor(r_) and r_.numel() and r_.dtype in (torch.long, torch.int32, torch.uint8)
+                            for t in (r_[:, 0] if r_.dim() == 2 and r_.shape[1] else r_.reshape(-1)).tolist()}
+                    if sos == "lo":
+                        sos = next(v for v in (3, 2, 6, 7, 1000) if v not in used)
+                    if eos == "lo":
+                        eos = next(v for v in (5, 4, 1, 8, 1001) if v not in used and v != sos)
                     try:
                         ds = dataset(params=data.SpectDataParams(sos=sos, eos=eos), tokens_only=tokens_only)
                     except Exception as e:  # noqa
